@@ -121,7 +121,7 @@ func (in *Interp) ufStr(name string, minLen, maxLen int, pred func(*Term) *Term,
 	}
 	id := len(in.ufMemo)
 	ln := b.SymBounded(fmt.Sprintf("ufs_%s_%d_len", sanitize(name), id), 64, uint64(minLen), uint64(maxLen))
-	side := []*Term{b.ULe(b.BV(uint64(minLen), 64), ln), b.ULe(ln, b.BV(uint64(maxLen), 64))}
+	side := []*Term{b.RawULe(b.BV(uint64(minLen), 64), ln), b.RawULe(ln, b.BV(uint64(maxLen), 64))}
 	bs := make([]*Term, maxLen)
 	for i := range bs {
 		bs[i] = b.Sym(fmt.Sprintf("ufs_%s_%d_b%d", sanitize(name), id, i), 8)
@@ -171,6 +171,15 @@ func (in *Interp) isCleanByte(t *Term) *Term {
 // ---- nondet draws ----
 
 func (in *Interp) drawBV(kind string, w uint8) *Term {
+	if in.drawCursor < len(in.draws) {
+		d := in.draws[in.drawCursor]
+		if d.Kind != kind {
+			in.unsupported("draw replay mismatch: want %s have %s", kind, d.Kind)
+		}
+		in.drawCursor++
+		return d.Syms[0]
+	}
+	in.drawCursor++
 	n := len(in.draws)
 	sym := in.b.Sym(fmt.Sprintf("d%d_%s", n, kind), w)
 	in.draws = append(in.draws, Draw{Kind: kind, Syms: []*Term{sym}, W: w})
@@ -179,9 +188,18 @@ func (in *Interp) drawBV(kind string, w uint8) *Term {
 
 func (in *Interp) drawString(max int) *Str {
 	b := in.b
+	if in.drawCursor < len(in.draws) {
+		d := in.draws[in.drawCursor]
+		if d.Kind != "string" || d.Cap != max {
+			in.unsupported("draw replay mismatch: want string/%d have %s/%d", max, d.Kind, d.Cap)
+		}
+		in.drawCursor++
+		return in.str.FromSym(&SymStr{Len: d.Syms[0], B: d.Syms[1:]})
+	}
+	in.drawCursor++
 	n := len(in.draws)
 	ln := b.SymBounded(fmt.Sprintf("d%d_len%d", n, max), 64, 0, uint64(max))
-	in.constrain(b.ULe(ln, b.BV(uint64(max), 64)))
+	in.constrain(b.RawULe(ln, b.BV(uint64(max), 64)))
 	syms := []*Term{ln}
 	bs := make([]*Term, max)
 	for i := range bs {
@@ -261,11 +279,17 @@ func harnessAPI(name string) (IntrinsicFn, bool) {
 			if !lo.IsConst() || !hi.IsConst() {
 				in.unsupported("nondetI64In with symbolic bounds")
 			}
+			if in.drawCursor < len(in.draws) {
+				d := in.draws[in.drawCursor]
+				in.drawCursor++
+				return Sc{d.Syms[0]}
+			}
+			in.drawCursor++
 			n := len(in.draws)
 			l, h := int64(lo.val), int64(hi.val)
 			sym := in.b.SymSigned(fmt.Sprintf("d%d_i64r%x_%x", n, uint64(l), uint64(h)), 64, l, h)
 			in.draws = append(in.draws, Draw{Kind: "i64", Syms: []*Term{sym}, W: 64})
-			in.constrain(in.b.And(in.b.mk(&Term{op: OpSLe, args: []*Term{lo, sym}}), in.b.mk(&Term{op: OpSLe, args: []*Term{sym, hi}})))
+			in.constrain(in.b.And(in.b.RawSLe(lo, sym), in.b.RawSLe(sym, hi)))
 			return Sc{sym}
 		}, true
 	case "nondetInt":
@@ -316,6 +340,12 @@ func harnessAPI(name string) (IntrinsicFn, bool) {
 			if n.val == 0 {
 				panic(&pathEnd{kind: "assume"})
 			}
+			if in.drawCursor < len(in.draws) {
+				d := in.draws[in.drawCursor]
+				in.drawCursor++
+				return Sc{in.b.BV(uint64(d.Val), 64)}
+			}
+			in.drawCursor++
 			conds := make([]*Term, n.val)
 			for i := range conds {
 				conds[i] = in.b.True
@@ -335,6 +365,26 @@ func harnessAPI(name string) (IntrinsicFn, bool) {
 				return Sc{in.b.BV(uint64(v), 64)}
 			}
 			return Sc{def}
+		}, true
+	case "verifDrawMark":
+		return func(in *Interp, _ *frame, _ *ssa.Function, args []Value, _ tokenPos) Value {
+			return Sc{in.b.BV(uint64(in.drawCursor), 64)}
+		}, true
+	case "verifDrawRewind":
+		return func(in *Interp, _ *frame, _ *ssa.Function, args []Value, _ tokenPos) Value {
+			in.drawCursor = int(args[0].(Sc).T.val)
+			return nil
+		}, true
+	case "verifSentMessages":
+		return func(in *Interp, _ *frame, fn *ssa.Function, args []Value, _ tokenPos) Value {
+			rp := args[0].(PtrV)
+			var vals []Value
+			for _, c := range in.sent {
+				if c.reply == rp.obj {
+					vals = append(vals, c.msg)
+				}
+			}
+			return in.mkSlice(vals, fn.Signature.Results().At(0).Type().Underlying().(*types.Slice).Elem())
 		}, true
 	case "verifNote":
 		return func(in *Interp, _ *frame, _ *ssa.Function, args []Value, _ tokenPos) Value {
@@ -383,6 +433,66 @@ func harnessAPI(name string) (IntrinsicFn, bool) {
 		return func(in *Interp, _ *frame, _ *ssa.Function, args []Value, _ tokenPos) Value {
 			return Sc{in.str.AllBytes(args[0].(*Str), func(c byte) bool { return c != 0 && c != 10 && c != 13 }, in.isCleanByte)}
 		}, true
+	case "verifOr", "verifAnd":
+		isOr := name == "verifOr"
+		return func(in *Interp, _ *frame, _ *ssa.Function, args []Value, _ tokenPos) Value {
+			var ts []*Term
+			for _, e := range sliceElems(args[0]) {
+				ts = append(ts, e.(Sc).T)
+			}
+			if isOr {
+				return Sc{in.b.Or(ts...)}
+			}
+			return Sc{in.b.And(ts...)}
+		}, true
+	case "verifImplies":
+		return func(in *Interp, _ *frame, _ *ssa.Function, args []Value, _ tokenPos) Value {
+			return Sc{in.b.Implies(args[0].(Sc).T, args[1].(Sc).T)}
+		}, true
+	case "verifIteS":
+		return func(in *Interp, _ *frame, _ *ssa.Function, args []Value, _ tokenPos) Value {
+			return in.str.Ite(args[0].(Sc).T, args[1].(*Str), args[2].(*Str))
+		}, true
+	case "verifIteT":
+		return func(in *Interp, _ *frame, _ *ssa.Function, args []Value, _ tokenPos) Value {
+			v, ok := in.iteTime(args[0].(Sc).T, args[1].(TimeV), args[2].(TimeV))
+			if !ok {
+				in.unsupported("verifIteT on times of different resolution")
+			}
+			return v
+		}, true
+	case "verifIteU":
+		return func(in *Interp, _ *frame, _ *ssa.Function, args []Value, _ tokenPos) Value {
+			return Sc{in.b.Ite(args[0].(Sc).T, args[1].(Sc).T, args[2].(Sc).T)}
+		}, true
+	case "verifSlots", "verifSlotKey", "verifSlotVal", "verifSlotPresent":
+		return func(in *Interp, _ *frame, fn *ssa.Function, args []Value, _ tokenPos) Value {
+			iv := args[0].(IfaceV)
+			mv, _ := iv.V.(MapV)
+			var live []*MapEntry
+			if mv.m != nil {
+				for _, e := range mv.m.entries {
+					if !e.present.IsFalse() {
+						live = append(live, e)
+					}
+				}
+			}
+			if name == "verifSlots" {
+				return Sc{in.b.BV(uint64(len(live)), 64)}
+			}
+			it := args[1].(Sc).T
+			if !it.IsConst() || it.val >= uint64(len(live)) {
+				in.unsupported("%s: slot index must be a concrete in-range value", name)
+			}
+			e := live[it.val]
+			switch name {
+			case "verifSlotKey":
+				return IfaceV{T: mv.m.kt, V: copyVal(e.key)}
+			case "verifSlotVal":
+				return IfaceV{T: mv.m.vt, V: copyVal(e.val)}
+			}
+			return Sc{e.present}
+		}, true
 	case "verifSymbolic":
 		return func(in *Interp, _ *frame, _ *ssa.Function, _ []Value, _ tokenPos) Value { return Sc{in.b.True} }, true
 	case "verifGhostSet", "verifGhostGet":
@@ -392,6 +502,13 @@ func harnessAPI(name string) (IntrinsicFn, bool) {
 }
 
 // ---- registration ----
+
+func init() {
+	nop := func(in *Interp, _ *frame, _ *ssa.Function, _ []Value, _ tokenPos) Value { return nil }
+	for _, m := range []string{"Inc", "Dec", "Add", "Set", "Observe", "Sub", "SetToCurrentTime"} {
+		modelMethods["model:prometheus."+m] = nop
+	}
+}
 
 func registerIntrinsics(e *Engine) {
 	reg := func(name string, f IntrinsicFn) { e.intr[name] = f }
@@ -404,10 +521,6 @@ func registerIntrinsics(e *Engine) {
 		"github.com/stapelberg/glog.Info", "github.com/stapelberg/glog.Warning", "github.com/stapelberg/glog.Error",
 		"github.com/stapelberg/glog.Infoln", "github.com/stapelberg/glog.Errorln",
 		"github.com/prometheus/client_golang/prometheus.MustRegister",
-		"(*github.com/prometheus/client_golang/prometheus.CounterVec).WithLabelValues",
-		"(*github.com/prometheus/client_golang/prometheus.GaugeVec).WithLabelValues",
-		"(*github.com/prometheus/client_golang/prometheus.SummaryVec).WithLabelValues",
-		"(*github.com/prometheus/client_golang/prometheus.HistogramVec).WithLabelValues",
 		"(*sync.WaitGroup).Add", "(*sync.WaitGroup).Done", "(*sync.WaitGroup).Wait",
 		"runtime.GC", "runtime/debug.FreeOSMemory",
 	} {
@@ -423,6 +536,10 @@ func registerIntrinsics(e *Engine) {
 		}
 	}
 	for _, n := range []string{
+		"(*github.com/prometheus/client_golang/prometheus.CounterVec).WithLabelValues",
+		"(*github.com/prometheus/client_golang/prometheus.GaugeVec).WithLabelValues",
+		"(*github.com/prometheus/client_golang/prometheus.SummaryVec).WithLabelValues",
+		"(*github.com/prometheus/client_golang/prometheus.HistogramVec).WithLabelValues",
 		"github.com/prometheus/client_golang/prometheus.NewCounterVec",
 		"github.com/prometheus/client_golang/prometheus.NewCounter",
 		"github.com/prometheus/client_golang/prometheus.NewGauge",
